@@ -1,7 +1,17 @@
 """C02 string / fields / query / uri / repr / copy denote the same Sid."""
 from harness.runner import PropBase, Case
 from harness import gen
-from props.c01 import natural
+from props.c01 import natural, seg_accepts
+
+def all_accepting(v, body):
+    """every (type, fields) whose template accepts the string, in configuration order"""
+    segs = body.split('/')
+    res = []
+    for t in v.order:
+        keys = v.types[t]
+        if len(keys) == len(segs) and all(seg_accepts(e, g) for (k, e), g in zip(keys, segs)):
+            res.append((t, [[k, g] for (k, e), g in zip(keys, segs)]))
+    return res
 
 QUERY_UNSAFE = set(' \t\n\r\x0b\x0c&=?#%+~;')
 
@@ -9,7 +19,8 @@ class C02(PropBase):
     id = 'C02'
     rule = ('naturally typed sids over the per-key value sets of every type (concrete, "*", ">", aliases; colliding key sets '
             '*__file / *__movie_file / *__cache_file); each rebuilt from uri, shuffled fields, query, eval(repr), copy; '
-            'non-trivial = typed; distinct by (sid, rebuild kind)')
+            'non-trivial = typed; distinct by (sid, rebuild kind); plus histories in one process on strings that several templates accept: '
+            'the plain string, then copy() / == of the same string forced to each accepting type, then the plain string again')
     def cases(self, rng, ctx, tier):
         v = gen.vocab_from_ctx(ctx)
         n = 120 if tier == 'quick' else 2500
@@ -22,6 +33,26 @@ class C02(PropBase):
             s = gen.mutate_string(v.sid(v.any_type(rng), rng), rng, v)
             if '?' not in s:
                 out.append(Case('obs', [['s', s]], 'malformed'))
+        # strings accepted by several templates: a typed Sid is its (type, fields), whatever else was built in the process
+        seen = set()
+        for t in v.order:
+            for _ in range(n // 2):
+                s = v.sid(t, rng, search_p=rng.choice([0, 0.5, 0.9]))
+                if s in seen or any(ch in s for ch in ':?\n'):
+                    continue
+                acc = all_accepting(v, s)
+                if len(acc) < 2:
+                    continue
+                seen.add(s)
+                t1, f1 = acc[0]
+                t2, f2 = rng.choice(acc[1:])
+                steps = [['sid', [['s', s]]], ['copy', [['s', t2 + ':' + s]]], ['copy', [['s', t1 + ':' + s]]], ['sid', [['s', s]]],
+                         ['eq', [['s', t1 + ':' + s], ['s', t2 + ':' + s]]], ['eq', [['s', t2 + ':' + s], ['s', t2 + ':' + s]]],
+                         ['sid', [['f', f2]]], ['sid', [['s', t2 + ':' + s]]]]
+                if rng.random() < 0.5:
+                    steps = steps[1:]      # without the plain string first
+                exp = {'sid_s': [s, t1, f1], 'copy1': [s, t1, f1], 'copy2': [s, t2, f2]}
+                out.append(Case('seq', steps, 'collide', {'s': s, 't1': t1, 'f1': f1, 't2': t2, 'f2': f2}))
         return out
     def phase2(self, rng, ctx, cases, impl_out, tier):
         more = []
@@ -56,6 +87,24 @@ class C02(PropBase):
                 if '/'.join(val for _, val in fields) != string:
                     return 'string %r is not the canonical rendering of its fields' % string
             return None
+        if case.op == 'seq':
+            m = case.meta
+            s, t1, f1, t2, f2 = m['s'], m['t1'], m['f1'], m['t2'], m['f2']
+            for (op, a), r in zip(case.args, impl):
+                if op == 'sid' and a[0][0] == 's':
+                    want = ['ok', [s, t1, f1]] if ':' not in a[0][1] else ['ok', [s, t2, f2]]
+                    if r != want:
+                        return 'in the history %r: Sid(%r) is %r, expected %r' % (case.args, a[0][1], r, want)
+                elif op == 'copy':
+                    ty = a[0][1].split(':', 1)[0]
+                    want = ['ok', [s, ty, f1 if ty == t1 else f2]]
+                    if r != want:
+                        return 'in the history %r: Sid(%r).copy() is %r, expected %r' % (case.args, a[0][1], r, want)
+                elif op == 'eq':
+                    same = a[0][1] == a[1][1]
+                    if r != ('1' if same else '0'):
+                        return 'Sid(%r) == Sid(%r) is %r although type and fields %s' % (a[0][1], a[1][1], r, 'are equal' if same else 'differ')
+            return None
         orig = case.meta.get('orig')
         if orig is None:
             return None
@@ -79,6 +128,7 @@ class C02(PropBase):
         if case.op == 'obs':
             return case.args if (isinstance(impl, list) and len(impl) > 1 and impl[1] == '1') else None
         return [case.op, case.args]
+    def histogram_key_unused(self): pass
     def histogram_key(self, case, impl):
         if case.op == 'obs':
             try:
